@@ -7,6 +7,7 @@ CONSTANTS
   HistN = 2
   HistLen = 3
   Deep = TRUE
+  AngleCodes <- AngleCodesT
   NB = 64
 INVARIANT SeqEqSim
 INVARIANT CodeEqDef
